@@ -359,6 +359,10 @@ class Exec:
                     st(s, fr)
                 s.steps += len(stmts) + 1
                 if s.steps > s.step_budget:
+                    if s.env.get('budget_is_hang'):
+                        # harnesses whose property includes termination: a path that does not end within the budget is a
+                        # suspected non-termination; the native replay (with a time limit) decides whether it is reported
+                        raise Hang('step budget of %d MIR statements exceeded: non-termination suspected' % s.step_budget)
                     raise Unsupported('step budget exceeded')
                 bb = term(s, fr)
                 if bb is None:
